@@ -3,6 +3,8 @@
 package modules
 
 import (
+	"context"
+
 	"github.com/go-kit/log"
 
 	"github.com/grafana/dskit/services"
@@ -195,4 +197,210 @@ func HarnessC18_DagServices() {
 		}
 	}
 	vfCover("c18-dag-done")
+}
+
+func init() { vfRegisterBubble("HarnessC18_Runtime", HarnessC18_Runtime) }
+
+type vfC18Err struct{}
+
+func (vfC18Err) Error() string { return "start failed" }
+
+// HarnessC18_Runtime: the run-time half. Every forward-edge DAG on n modules;
+// each module may or may not have a service; each service's starting function
+// blocks on a gate the controller opens (in every order), and fails or not (a
+// solver boolean); shutdown is requested at any point (also while services are
+// still starting), with the wrappers asked to stop in either order; stopping
+// functions block on gates as well. Asserted inside the functions themselves:
+// a service starts only while every (transitive) dependency's service is
+// running; its stopping function runs only when every dependant's service has
+// terminated. After start-up: dependants of a failed dependency were never
+// started and their wrappers failed. At the end nothing is left blocked.
+func HarnessC18_Runtime() {
+	n := vfParam("mods", 3)
+	m := NewManager(log.NewNopLogger())
+	adj := make([][]bool, n)
+	for i := range adj {
+		adj[i] = make([]bool, n)
+	}
+	var reach func(from, to int) bool
+	reach = func(from, to int) bool {
+		if from == to {
+			return true
+		}
+		for y := 0; y < n; y++ {
+			if adj[from][y] && reach(y, to) {
+				return true
+			}
+		}
+		return false
+	}
+	hasSvc := make([]bool, n)
+	failStart := make([]bool, n)
+	startGate := make([]chan struct{}, n)
+	stopGate := make([]chan struct{}, n)
+	started := make([]bool, n)
+	startOpen := make([]bool, n)
+	stopBegun := make([]bool, n)
+	stopOpen := make([]bool, n)
+	inner := make([]services.Service, n)
+	isDown := func(s services.Service) bool {
+		st := s.State()
+		return st == services.New || st == services.Terminated || st == services.Failed
+	}
+	for i := 0; i < n; i++ {
+		i := i
+		hasSvc[i] = i == 0 || vfBool("has_service")
+		if hasSvc[i] {
+			failStart[i] = vfBool("fail_start")
+		}
+		startGate[i] = make(chan struct{})
+		stopGate[i] = make(chan struct{})
+		m.RegisterModule(vfMods[i], func() (services.Service, error) {
+			if !hasSvc[i] {
+				return nil, nil
+			}
+			inner[i] = services.NewBasicService(
+				func(_ context.Context) error {
+					started[i] = true
+					for j := 0; j < n; j++ {
+						if j != i && reach(i, j) && hasSvc[j] {
+							vfAssert(inner[j] != nil && inner[j].State() == services.Running, "C18 a module's service starts only after all its dependencies are running")
+						}
+					}
+					<-startGate[i]
+					if failStart[i] {
+						return vfC18Err{}
+					}
+					return nil
+				},
+				func(ctx context.Context) error {
+					<-ctx.Done()
+					return nil
+				},
+				func(_ error) error {
+					stopBegun[i] = true
+					for k := 0; k < n; k++ {
+						if k != i && reach(k, i) && hasSvc[k] && inner[k] != nil {
+							vfAssert(isDown(inner[k]), "C18 a module's service is stopped only after every module depending on it has stopped")
+						}
+					}
+					<-stopGate[i]
+					return nil
+				})
+			return inner[i], nil
+		})
+	}
+	for j := n - 1; j >= 1; j-- {
+		for i := 0; i < j; i++ {
+			if vfBool("edge") {
+				vfAssert(m.AddDependency(vfMods[i], vfMods[j]) == nil, "C18 a dependency that keeps the graph acyclic is accepted")
+				adj[i][j] = true
+			}
+		}
+	}
+	svcs, err := m.InitModuleServices(vfMods[0])
+	vfAssert(err == nil, "C18 initialisation of an acyclic graph succeeds")
+	if err != nil {
+		return
+	}
+	var wr []services.Service
+	var widx []int
+	for i := 0; i < n; i++ {
+		if s := svcs[vfMods[i]]; s != nil {
+			wr = append(wr, s)
+			widx = append(widx, i)
+		}
+	}
+	ctx := context.Background()
+	if vfChoice("start_order", 2) == 0 {
+		for _, s := range wr {
+			vfAssert(s.StartAsync(ctx) == nil, "C18 wrapper accepts the start request")
+		}
+	} else {
+		for x := len(wr) - 1; x >= 0; x-- {
+			vfAssert(wr[x].StartAsync(ctx) == nil, "C18 wrapper accepts the start request")
+		}
+	}
+	shutdown := false
+	early := false
+	requestStop := func() {
+		shutdown = true
+		if vfChoice("stop_order", 2) == 0 {
+			for _, s := range wr {
+				s.StopAsync()
+			}
+		} else {
+			for x := len(wr) - 1; x >= 0; x-- {
+				wr[x].StopAsync()
+			}
+		}
+	}
+	for step := 0; step < 4*n+2; step++ {
+		vfQuiesce()
+		var pend []int // 2*i = start gate of i, 2*i+1 = stop gate of i
+		for i := 0; i < n; i++ {
+			if started[i] && !startOpen[i] {
+				pend = append(pend, 2*i)
+			}
+			if stopBegun[i] && !stopOpen[i] {
+				pend = append(pend, 2*i+1)
+			}
+		}
+		opts := len(pend)
+		if !shutdown {
+			opts++ // request shutdown now
+		}
+		if opts == 0 {
+			break
+		}
+		c := 0
+		if opts > 1 {
+			c = vfChoice("next", opts)
+		}
+		if c == len(pend) {
+			if len(pend) > 0 {
+				early = true
+			} else {
+				// start-up is complete: check who runs and who failed
+				for x, i := range widx {
+					depFailed := false
+					for j := 0; j < n; j++ {
+						if j != i && reach(i, j) && hasSvc[j] && failStart[j] {
+							depFailed = true
+						}
+					}
+					st := wr[x].State()
+					if depFailed {
+						vfAssert(!started[i], "C18 dependants of a dependency that failed to start are not started")
+						vfAssert(st == services.Failed, "C18 dependants of a dependency that failed to start fail as well")
+					} else if failStart[i] {
+						vfAssert(st == services.Failed, "C18 a module whose service fails to start is failed")
+					} else {
+						vfAssert(st == services.Running && inner[i].State() == services.Running, "C18 a module whose dependencies all run is running after start-up")
+					}
+				}
+				vfCover("c18-rt-started")
+			}
+			requestStop()
+			continue
+		}
+		g := pend[c]
+		if g%2 == 0 {
+			startOpen[g/2] = true
+			close(startGate[g/2])
+		} else {
+			stopOpen[g/2] = true
+			close(stopGate[g/2])
+		}
+	}
+	vfQuiesce()
+	vfAssert(shutdown, "C18 harness reached shutdown")
+	for x, i := range widx {
+		st := wr[x].State()
+		vfAssert(st == services.Terminated || st == services.Failed, "C18 every module service ends terminated or failed after shutdown")
+		vfAssert(isDown(inner[i]), "C18 every wrapped service is down after shutdown")
+	}
+	_ = early
+	vfAssert(vfBlockedThreads() == 0, "C18 nothing is left blocked after shutdown")
+	vfCover("c18-rt-done")
 }
